@@ -142,6 +142,14 @@ CHECKS["C16"] = dict(
     note="trusted: the rewriting functions of lib/props/c16.py (only existing gaps are widened, am / pm stays with its time, unit names keep their case), renderer, projection, TLC",
     ref="7 C16")
 
+CHECKS["C19"] = dict(
+    technique="TLA+ spec in which the language is a rendering / printing attribute (invariance by construction; printed words checked by PrintMatches through table-driven projections); TLC-enumerated date, duration and arithmetic cases replayed in every language; random cases validated by TLC (Trace.tla)",
+    text="The cases TLC enumerates for dates and durations are rendered with every configured month name, duration word and day keyword of every language and must give the value TLC computed, "
+         "printed with that language's own month names and unit words; arithmetic trees are written with each language's operator words; word-free arithmetic, percentage and money cases are "
+         "evaluated under every language tag and must agree in value and in printed output; random cases are executed and validated by TLC with the language in the event.",
+    note="trusted: renderer (words from config.json), date_printed / duration_parts projections (language tables), TLC; only concepts a language has words for are rendered in it",
+    ref="7 C19")
+
 NOT_YET = {
 }
 
